@@ -10,6 +10,8 @@
 //	oversize after some valid frames, a header announcing more than the receive limit: a frame of limit+1 bytes sent in
 //	         full must not be delivered; a header announcing 64 MiB - 1 GiB (no body) must not make the node allocate it
 //
+//	concurrent-codec  4-8 goroutines encode and decode messages of all six types at the same time; every round trip must
+//	         give back the message that went in
 //	conn-pair two Conns over TCP, the sending one on a slow link (a pause after every socket write) with keepalive pings
 //	         every 0.5-2 ms, the receiving one answering or pinging itself: what the receiver delivers must be a prefix of
 //	         what was sent, byte for byte (pings and pongs must never land inside a frame)
@@ -256,7 +258,7 @@ var wirePlans = []string{"whole", "header-split", "two", "many", "mtu", "mtu"}
 func wireCase(i int, root *vh.Rng, pl *pool) *wireRes {
 	rng := root.Derive("wire", i)
 	res := &wireRes{Idx: i, Counts: map[string]int64{}}
-	res.Class = []string{"honest", "honest", "raw", "oversize", "conn-pair", "hostile-reader", "raw", "ping-flood"}[i%8]
+	res.Class = []string{"honest", "honest", "raw", "oversize", "conn-pair", "hostile-reader", "concurrent-codec", "ping-flood"}[i%8]
 	p, err := newWirePair()
 	if err != nil {
 		res.Dropped = "cannot set up the loopback pair: " + err.Error()
@@ -390,6 +392,65 @@ func wireCase(i int, root *vh.Rng, pl *pool) *wireRes {
 			p.client.Close() // unblocks a writer the receiver no longer serves
 		}
 		<-done
+	case "concurrent-codec":
+		// every connection of a node has its own sender and reader goroutine: messages of different types are encoded and
+		// decoded at the same time. 4-8 goroutines each round-trip their own messages (all six types in play) and compare.
+		p.close()
+		G := rng.Range(4, 8)
+		type job struct {
+			m   protocol.Message
+			typ int
+		}
+		jobs := make([][]job, G)
+		for g := range jobs {
+			for k := 0; k < 6; k++ {
+				typ := 1 + (g+k)%6
+				m, _ := genMessage(rng, pl, typ, genOpts{nq: -1})
+				jobs[g] = append(jobs[g], job{m, typ})
+			}
+		}
+		rounds := 100
+		fmt.Fprintf(&hash, "codec-%d-%d", G, rounds)
+		var wg sync.WaitGroup
+		var vmu sync.Mutex
+		reported := false
+		for g := 0; g < G; g++ {
+			g := g
+			wg.Add(1)
+			go func() {
+				defer wg.Done()
+				for r := 0; r < rounds; r++ {
+					j := jobs[g][r%len(jobs[g])]
+					enc, err := protocol.EncodeMessage(j.m)
+					if err != nil {
+						continue
+					}
+					got, derr := protocol.DecodeMessage(enc)
+					res.add("concurrent_round_trips", 1)
+					d := ""
+					switch {
+					case derr != nil:
+						d = "decode error: " + derr.Error()
+					case got == nil:
+						d = "nil message"
+					default:
+						d = diffMsg(j.m, got)
+					}
+					if d != "" {
+						vmu.Lock()
+						if !reported {
+							reported = true
+							res.violate("round-trip-differs-under-concurrent-use", map[string]string{"type": fmt.Sprint(j.typ)},
+								map[string]interface{}{"difference": trim(d, 300), "goroutines": G, "message_type": j.typ, "encoded_head": fmt.Sprintf("%x", enc[:minInt(16, len(enc))])})
+						}
+						vmu.Unlock()
+						return
+					}
+				}
+			}()
+		}
+		wg.Wait()
+		res.Nontrivial = true
 	case "raw":
 		sizes := []int{1, 2, 3, 255, 256, 4095, 4096, 32767, 32768, 32769, 65535, 65536, 65537, 1 << 20, recvLimit - 1, recvLimit}
 		n := rng.Range(3, 7)
